@@ -205,6 +205,10 @@ WriteDone(s, h, n) ==
     /\ sk' = [sk EXCEPT ![s].wr = None]
     /\ UNCHANGED <<now, nat, lst, cn>>
 
+\* after the peer closed and its end-of-file was read, a write fails
+WriteFailed(s, h) == /\ sk[s].wr # None /\ sk[s].wr.h = h /\ sk[s].eofRead
+                     /\ sk' = [sk EXCEPT ![s].wr = None]
+                     /\ UNCHANGED <<now, nat, lst, cn, st>>
 StartRead(s, h, style, cap) == /\ sk[s].conn # 0 /\ ~sk[s].closed /\ sk[s].rd = None
                                /\ sk' = [sk EXCEPT ![s].rd = [h |-> h, style |-> style, cap |-> cap]]
                                /\ UNCHANGED <<now, nat, lst, cn, st>>
@@ -230,10 +234,23 @@ Ready(s, h) == /\ sk[s].rd # None /\ sk[s].rd.h = h /\ sk[s].rd.style = "wait"
 
 \* close(): pending operations will complete with operation_aborted; the stream state of this
 \* socket object is gone (a later connection on the same object starts empty)
+\* a connector that gives up (close / cancel) while its connect is being refused is no longer owed
+\* the refusal
+GiveUp(s) == [i \in DOMAIN cn |-> IF cn[i].csock = s /\ cn[i].phase = "refusing"
+                                  THEN [cn[i] EXCEPT !.phase = "cancelled"] ELSE cn[i]]
 CloseSock(s) == /\ sk' = [sk EXCEPT ![s].closed = TRUE, ![s].rd = None, ![s].wr = None,
                                     ![s].aborting = @ + (IF sk[s].rd # None THEN 1 ELSE 0)
                                                       + (IF sk[s].wr # None THEN 1 ELSE 0)]
-                /\ UNCHANGED <<now, nat, lst, cn, st>>
+                /\ cn' = GiveUp(s)
+                /\ UNCHANGED <<now, nat, lst, st>>
+\* cancel(): like close() for the pending operations, but the socket stays usable
+CancelSock(s) == /\ sk' = [sk EXCEPT ![s].rd = None, ![s].wr = None,
+                                     ![s].aborting = @ + (IF sk[s].rd # None THEN 1 ELSE 0)
+                                                       + (IF sk[s].wr # None THEN 1 ELSE 0)]
+                 /\ cn' = GiveUp(s)
+                 /\ UNCHANGED <<now, nat, lst, st>>
+CancelAcceptor(l) == /\ lst' = [lst EXCEPT ![l].pend = <<>>, ![l].aborting = @ + Len(lst[l].pend)]
+                     /\ UNCHANGED <<now, nat, cn, st, sk>>
 Aborted(s) == /\ sk[s].aborting > 0
               /\ sk' = [sk EXCEPT ![s].aborting = @ - 1]
               /\ UNCHANGED <<now, nat, lst, cn, st>>
